@@ -21,6 +21,8 @@ pub struct Spec<'a> {
     pub post: &'a (dyn Fn(Arch, &BackendRun) -> Option<String> + Sync),
     /// non-triviality of a run
     pub nontrivial: &'a (dyn Fn(&BackendRun) -> bool + Sync),
+    /// additional phase run after the generated executions
+    pub extra: Option<&'a (dyn Fn(&Ctx, &mut Evidence, &mut Report) + Sync)>,
 }
 
 fn finish_case(arch: Arch, spec: &Spec, r: CaseResult, runs: &[BackendRun], what: serde_json::Value) -> CaseResult {
@@ -79,6 +81,11 @@ pub fn run(ctx: &Ctx, spec: &Spec) -> i32 {
             report.violations.push(write_replay(ctx, &format!("linear-{}", arch.name()), &bytes, &f));
         }
     }
+    if report.violations.is_empty() {
+        if let Some(extra) = spec.extra {
+            extra(ctx, &mut ev, &mut report);
+        }
+    }
     let infra: u64 = ev.discards.iter().filter(|(k, _)| k.starts_with("infra")).map(|(_, v)| *v).sum();
     if infra > 0 {
         report.infra_errors.push(format!("{infra} cases hit an infrastructure problem (see evidence)"));
@@ -87,6 +94,14 @@ pub fn run(ctx: &Ctx, spec: &Spec) -> i32 {
 }
 
 pub fn replay(ctx: &Ctx, spec: &Spec, sub: &str, bytes: &[u8], case: &serde_json::Value) -> CaseResult {
+    if sub.starts_with("family") {
+        let arch = match case["arch"].as_str().unwrap_or("") {
+            "aarch64" => Arch::A64,
+            "rv64" => Arch::Rv,
+            _ => Arch::X86,
+        };
+        return family_case(arch, case["kind"].as_u64().unwrap_or(0) as usize, case["m"].as_u64().unwrap_or(8) as usize, case["n"].as_u64().unwrap_or(64) as usize);
+    }
     let arch = if sub.ends_with("aarch64") {
         Arch::A64
     } else if sub.ends_with("rv64") {
@@ -122,6 +137,7 @@ pub fn c09_spec<'a>(ctx: &Ctx) -> Spec<'a> {
         lin_cfg: &c09_lin_cfg,
         post: &|_, _| None,
         nontrivial: &|r| r.audit.saw_count_gt0 || r.audit.saw_deferred || r.audit.saw_chain,
+        extra: None,
     }
 }
 
@@ -141,6 +157,7 @@ pub fn c10_spec<'a>(ctx: &Ctx) -> Spec<'a> {
         lin_cfg: &c09_lin_cfg,
         post: &|_, r| heapcheck::footprint_ok(&r.audit).err(),
         nontrivial: &|r| (r.audit.saw_reusable_gt1 || r.audit.saw_deferred) && r.audit.peak_reachable >= 3,
+        extra: Some(&families_phase),
     }
 }
 
@@ -165,5 +182,70 @@ pub fn c13_spec<'a>(ctx: &Ctx) -> Spec<'a> {
         lin_cfg: &c13_lin_cfg,
         post: &|_, _| None,
         nontrivial: &|r| r.ax.prints > 0 && r.ax.max_env >= 5,
+        extra: None,
+    }
+}
+
+// ---- C10, oracle 2: space independent of the number of iterations ----
+
+pub fn family_case(arch: Arch, kind: usize, m: usize, n: usize) -> CaseResult {
+    let text = crate::families::space_family(kind, m);
+    let (_lin, asm) = match compile_fun(&text, arch) {
+        Ok(x) => x,
+        Err(CaseResult::Fail(f)) => return CaseResult::Fail(f),
+        Err(_) => return CaseResult::Discard(format!("infra: family {kind} does not compile for {}", arch.name())),
+    };
+    let mut marks = vec![];
+    for nn in [n, 4 * n, 16 * n] {
+        let r = emulate(arch, &asm, &[nn as i64], 4_000_000_000, None);
+        match r.outcome {
+            Ok(_) => marks.push((nn, r.heap_high_water, r.steps)),
+            Err(f) => {
+                return CaseResult::Fail(Failure {
+                    kind: "family-fault".into(),
+                    summary: format!("{}: loop family {kind} (m = {m}) with n = {nn} faults: {f}", arch.name()),
+                    details: json!({"source": text, "n": nn}),
+                });
+            }
+        }
+    }
+    if marks.iter().any(|(_, h, _)| *h != marks[0].1) {
+        return CaseResult::Fail(Failure {
+            kind: "family-space".into(),
+            summary: format!(
+                "{}: loop family {kind} (m = {m}): highest written heap address depends on the number of iterations: {:?}",
+                arch.name(),
+                marks.iter().map(|(n, h, _)| (*n, *h / 64)).collect::<Vec<_>>()
+            ),
+            details: json!({"source": text, "blocks_by_n": marks.iter().map(|(n, h, _)| json!([n, h / 64])).collect::<Vec<_>>()}),
+        });
+    }
+    CaseResult::Pass {
+        nontrivial: n >= 64 && marks[0].1 / 64 >= 8,
+        hash: hash_str(&format!("fam{}{kind}/{m}/{n}", arch.name())),
+        classes: vec![format!("family {kind}"), format!("arch:{}", arch.name())],
+        sample: Some(json!({"family": kind, "m": m, "iterations": [n, 4 * n, 16 * n], "arch": arch.name(), "blocks": marks[0].1 / 64})),
+    }
+}
+
+fn families_phase(ctx: &Ctx, ev: &mut Evidence, report: &mut Report) {
+    use rayon::prelude::*;
+    let mut cases = vec![];
+    for arch in [Arch::X86, Arch::A64, Arch::Rv] {
+        for kind in 0..5usize {
+            for m in ctx.tier.pick(vec![8usize], vec![4, 8, 16]) {
+                cases.push((arch, kind, m, ctx.tier.pick(64usize, 128)));
+            }
+        }
+    }
+    let results: Vec<_> = cases.par_iter().map(|(a, k, m, n)| family_case(*a, *k, *m, *n)).collect();
+    for ((a, k, m, n), r) in cases.iter().zip(results.iter()) {
+        if let CaseResult::Fail(f) = r {
+            if report.violations.is_empty() {
+                eprintln!("{}", f.summary);
+                report.violations.push(write_replay_with(ctx, "family", &[], f, json!({"arch": a.name(), "kind": k, "m": m, "n": n})));
+            }
+        }
+        ev.absorb(r);
     }
 }
